@@ -29,6 +29,10 @@ const TEXT_CASE_MAX_BYTES: usize = 4096;
 /// class files up to this size are candidates for the whole-reader model (coq/C16/ModelClsRead.v): the cost of
 /// a case is its literal (about 0.1 ms per byte in coqc), not the evaluation
 const CLASS_CASE_MAX_BYTES: usize = 4096;
+/// the auxiliary number of a class run: the low bits hold the largest bootstrap expansion, bit VISITOR_BIT0 + k tells
+/// whether visitor k (order of `others` in run_one_) accepted the input
+const VISITOR_BIT0: u32 = 41;
+const AUX_COUNT_MASK: u64 = (1 << 40) - 1;
 pub const K_MDESC: u8 = 6;
 pub const K_RDESC: u8 = 7;
 
@@ -99,21 +103,28 @@ fn run_one_(kind: u8, bytes: &[u8], scratch: &Path) -> ((Res, Option<Res>), u64)
 			let (r, class) = res_of(guarded(|| duke::read_class(&mut Cursor::new(bytes))));
 			// the same bytes through the reader's other paths: all interests without a tree, no
 			// interests with every member declined, class declined; twice in a row on one cursor
-			let others: [(&str, Result<(), String>); 6] = [
-				("read_class_multi with a visitor without interest in fields and methods that declines every record component", guarded(|| { let mut c = Cursor::new(bytes); if let Ok(v) = duke::read_class_multi(&mut c, skim::NoMembers(0)) { let _ = duke::read_class_multi(&mut c, v); } })),
-				("read_class_multi with a visitor that declines the code of every method", guarded(|| { let mut c = Cursor::new(bytes); if let Ok(v) = duke::read_class_multi(&mut c, skim::DeclineCode(0)) { let _ = duke::read_class_multi(&mut c, v); } })),
-				("read_class_multi with the () visitor", guarded(|| { let _ = duke::read_class_multi(&mut Cursor::new(bytes), ()); })),
-				("read_class_multi with a visitor without interests", guarded(|| { let mut c = Cursor::new(bytes); if let Ok(v) = duke::read_class_multi(&mut c, skim::Skim(0)) { let _ = duke::read_class_multi(&mut c, v); } })),
-				("read_class_multi with a visitor that declines the class", guarded(|| { let mut c = Cursor::new(bytes); if let Ok(v) = duke::read_class_multi(&mut c, skim::Decline(0)) { let _ = duke::read_class_multi(&mut c, v); } })),
-				("read_class_multi into Vec<ClassFile>, twice on one cursor", guarded(|| { let mut c = Cursor::new(bytes); if let Ok(v) = duke::read_class_multi(&mut c, Vec::new()) { let _ = duke::read_class_multi(&mut c, v); } })),
+			// (each answers whether its FIRST read on a fresh cursor was accepted: bits 41.. of the auxiliary number,
+			// compared with the whole-reader model under the same visitor, coq/C16/Run.v CClassV)
+			let others: [(&str, Result<bool, String>); 6] = [
+				("read_class_multi with a visitor without interest in fields and methods that declines every record component", guarded(|| { let mut c = Cursor::new(bytes); match duke::read_class_multi(&mut c, skim::NoMembers(0)) { Ok(v) => { let _ = duke::read_class_multi(&mut c, v); true } Err(_) => false } })),
+				("read_class_multi with a visitor that declines the code of every method", guarded(|| { let mut c = Cursor::new(bytes); match duke::read_class_multi(&mut c, skim::DeclineCode(0)) { Ok(v) => { let _ = duke::read_class_multi(&mut c, v); true } Err(_) => false } })),
+				("read_class_multi with the () visitor", guarded(|| { duke::read_class_multi(&mut Cursor::new(bytes), ()).is_ok() })),
+				("read_class_multi with a visitor without interests", guarded(|| { let mut c = Cursor::new(bytes); match duke::read_class_multi(&mut c, skim::Skim(0)) { Ok(v) => { let _ = duke::read_class_multi(&mut c, v); true } Err(_) => false } })),
+				("read_class_multi with a visitor that declines the class", guarded(|| { let mut c = Cursor::new(bytes); match duke::read_class_multi(&mut c, skim::Decline(0)) { Ok(v) => { let _ = duke::read_class_multi(&mut c, v); true } Err(_) => false } })),
+				("read_class_multi into Vec<ClassFile>, twice on one cursor", guarded(|| { let mut c = Cursor::new(bytes); match duke::read_class_multi(&mut c, Vec::new()) { Ok(v) => { let _ = duke::read_class_multi(&mut c, v); true } Err(_) => false } })),
 			];
-			for (what, o) in others { if let Err(p) = o { return ((Res::Panic(format!("{what}: {p}")), None), 0); } }
-			let Some(class) = class else { return ((r, None), 0); };
+			let mut vbits = 0u64;
+			for (k, (what, o)) in others.into_iter().enumerate() {
+				match o { Err(p) => return ((Res::Panic(format!("{what}: {p}")), None), 0), Ok(ok) => vbits |= (ok as u64) << (VISITOR_BIT0 + k as u32) }
+			}
+			aux = vbits;
+			let Some(class) = class else { return ((r, None), aux); };
 			// the accepted tree must respect the documented bound on bootstrap arguments per instruction
-			aux = max_bootstrap_expansion(&class);
+			let expansion = max_bootstrap_expansion(&class);
+			aux |= expansion.min(AUX_COUNT_MASK);
 			let limit = documented_expansion_limit();
-			if aux > limit {
-				return ((Res::Limit(format!("one instruction of the accepted class carries {aux} bootstrap arguments (counting nested ones), the class reader documents a limit of {limit} per instruction (MAX_BOOTSTRAP_ARGUMENTS_EXPANDED)")), None), aux);
+			if expansion > limit {
+				return ((Res::Limit(format!("one instruction of the accepted class carries {expansion} bootstrap arguments (counting nested ones), the class reader documents a limit of {limit} per instruction (MAX_BOOTSTRAP_ARGUMENTS_EXPANDED)")), None), aux);
 			}
 			let (w, written) = res_of(guarded(AssertUnwindSafe(|| { let mut v = vec![]; duke::write_class(&mut v, &class).map(|_| v) })));
 			let w = match (w, written) {
@@ -434,8 +445,51 @@ fn known_class(inp: &Input, bytes: &[u8], failure: &str) -> Option<&'static str>
 	let memory_failure = failure.contains("allocation") || failure.contains("timeout");
 	if inp.kind == K_CLASS && memory_failure && failure.starts_with("class parser") {
 		if let Some(e) = cf::bootstrap_expansion(bytes) { if e.saturating_mul(256) > mem_bound(bytes.len()) { return Some("F17 bootstrap arguments stored by value per instruction (instructions x shared arguments)"); } }
+		// F17s (found in round 6, listed in known_findings.json): the same by-value design for pool strings — every reference to a Class entry gets its own
+		// copy of the name, so K interfaces that name one class with an L-byte name cost K*L bytes for a file of
+		// about 2K + L bytes.  Only the one generated shape, and only when the copies alone exceed the bound.
+		if inp.shape == "shared-pool-string" { if let Some(e) = interface_name_bytes(bytes) { if e > mem_bound(bytes.len()) { return Some("F17s pool strings copied by value per reference (references x string length)"); } } }
 	}
 	None
+}
+
+/// sum over the interfaces of a class file of the byte length of the named class's Utf8 (a walker of its own:
+/// pool entry sizes from the JVMS tags); None when the bytes are not of that shape
+fn interface_name_bytes(b: &[u8]) -> Option<u64> {
+	let u2 = |p: usize| -> Option<usize> { Some(((*b.get(p)? as usize) << 8) | *b.get(p + 1)? as usize) };
+	let count = u2(8)?;
+	let mut p = 10usize;
+	let mut utf8_len: Vec<usize> = vec![0; count.max(1)];
+	let mut class_name: Vec<usize> = vec![0; count.max(1)];
+	let mut i = 1usize;
+	while i < count {
+		let tag = *b.get(p)?;
+		match tag {
+			1 => { let l = u2(p + 1)?; utf8_len[i] = l; p += 3 + l; }
+			7 => { class_name[i] = u2(p + 1)?; p += 3; }
+			8 | 16 | 19 | 20 => p += 3,
+			15 => p += 4,
+			3 | 4 | 9 | 10 | 11 | 12 | 17 | 18 => p += 5,
+			5 | 6 => { p += 9; i += 1; }
+			_ => return None,
+		}
+		i += 1;
+	}
+	let n = u2(p + 6)?;
+	let mut total = 0u64;
+	for k in 0..n { let c = u2(p + 8 + 2 * k)?; total += *utf8_len.get(*class_name.get(c)?)? as u64; }
+	Some(total)
+}
+
+/// K interfaces that all name one class whose name has L bytes (candidate finding F17s)
+fn shared_string_inputs(out: &mut Vec<Input>) {
+	for (k, l) in [(10usize, 100usize), (3000, 30000)] {
+		let mut p = cf::Pool::new();
+		let this = p.class("T"); let sup = p.class("java/lang/Object");
+		let itf = p.class(&"a".repeat(l));
+		out.push(Input { kind: K_CLASS, form: Form::Raw(cf::class_file(61, &p, 0x0421, this, sup, &vec![itf; k], &[], &[], &[])), stream: "class-shared-string", shape: "shared-pool-string",
+			label: format!("{k} interfaces that all name one class whose name has {l} bytes"), case: None });
+	}
 }
 
 pub fn run(ctx: &Ctx) -> anyhow::Result<Report> {
@@ -486,6 +540,7 @@ pub fn run(ctx: &Ctx) -> anyhow::Result<Report> {
 	gen::targeted(ctx.thorough, &mut inputs);
 	gen::exact_counts(&mut inputs);
 	gen::texts(&mut rng, ctx.thorough, &mut inputs);
+	shared_string_inputs(&mut inputs);
 	case_inputs(&mut rng, ctx.thorough, &mut inputs);
 
 	let dir = ctx.out.join("sbx");
@@ -494,7 +549,7 @@ pub fn run(ctx: &Ctx) -> anyhow::Result<Report> {
 	let _ = std::fs::remove_dir_all(&dir);
 	anyhow::ensure!(outs.len() == inputs.len(), "sandbox returned {} outcomes for {} inputs", outs.len(), inputs.len());
 
-	r.rule = format!("every input runs in a child process of the harness under ulimit (address space {} MiB, stack {} MiB, CPU {} s per batch, {} s CPU per input) with a counting allocator; outcome ok/err is fine, panic / signal / timeout / heap above 32 MiB + 512 x input size is a violation, and so is an accepted class in which one ldc / invokedynamic instruction carries more (nested) bootstrap arguments than the limit the reader documents (MAX_BOOTSTRAP_ARGUMENTS_EXPANDED as read from the source under test, 65536) (each re-run alone before it counts). Inputs: {} valid classes (javac 17 output for --release 8/17 incl. records, sealed, module-info, lambdas, switches, annotations, type annotations; /repo fixtures), every structural field found by an independent walker set to boundary values, truncation at every byte, random byte edits, hand-assembled hostile shapes (truncated instructions, switch ranges, stack-map offset sums, local-variable ranges, exception ranges, code_length, attribute_length up to 4 GiB, self-referential / deep / shared bootstrap arguments, one instruction with 1..255 top-level bootstrap arguments over shared DAGs of exact sizes (each far below or just under the budget, sums 65535 / 65536 / 65537 and far above, through invokedynamic and through ldc), self-referential pool entries, deeply nested element values (arrays, annotations, alternating), huge counts, duplicates, 65535-byte code, invokeinterface descriptors around the writer's u8 argument size, every count of the format at 255 / 256 / 257 / 65535 with all counted items present, element values of the integer kinds at the boundaries of the narrower types, every byte string of length <= 2 (and the 3-byte ones behind E0..EF) over 19 bytes where modified UTF-8 changes its mind as a class name), HOSTILE STRINGS: {} variants of compact valid classes in which every Utf8 that is not an attribute name carries an unpaired high / low surrogate, an embedded NUL, a leading 2- / 3- / 6-byte character, 700 extra bytes, 300 `[` or a run of 300 of one structural character, and whose class name / member names / member descriptors are filled up to 65535 bytes, are BASES too (every field mutation, truncation and byte edit is crossed with them), one Utf8 at a time replaced by / extended to twelve 65535-byte strings (runs of `[` `(` `;` `<` `a/`, surrogates, NUL ...) and made invalid for its role next to a surrogate; every accepted or refused class additionally goes through read_class_multi with the () visitor, a visitor without interests, one that declines the class, one without interest in fields and methods that declines record components, one that declines the code of every method, and twice into Vec<ClassFile>; text inputs for tiny v2 / tiny diff / Enigma / nests (fixtures mutated, random lines, invalid UTF-8, huge indentation, very long lines, deep CLASS nesting; every cell of the valid fixtures replaced one at a time by 37 hostile cells (names that start with multi-byte characters, empty, <init>, array names, separators, Unicode digits and line separators, 3000 letters); 100000-character runs of each of 17 structural characters as class name, member name and descriptor; a backslash directly before 2-, 3-, 4-byte characters and combining marks, at the end of the line, doubled, before TAB, multi-byte characters next to every structural character, in every comment position / field; every string of length <= 3 over (backslash, n, e-acute, euro, U+10400, TAB, c) as comment cell) and descriptor strings (random, runs of each structural character of length 255..300000 inside the frames of field / method / object / array descriptors, 34 short valid and invalid descriptors with a surrogate / NUL / 6-byte character at every position); accepted classes go through write_class and the written bytes are read again. Whole-file correspondence: every text input of at most 4096 bytes (all targeted shapes and fixtures, the other streams sampled down to 5000 per quick run) is also a case CText for the model of the WHOLE parser (tiny v2 with 1 / 2 / 3 namespaces, tiny diff, Enigma, nests; coq/C16/ModelText.v, UTF-8 bytes), compared by exact outcome class ok / err / panic; element-value nesting is compared at 18 depths x 8 patterns against the three-function model whose increments are read from the source. Non-trivial: the parser accepted the input, or the input is a structured mutation of a valid file (reaches past the header). Distinct by input bytes.", LIMITS.as_kib / 1024, LIMITS.stack_kib / 1024, LIMITS.cpu_s, INPUT_CPU_LIMIT_MS / 1000, first_hostile, bases.len() - first_hostile);
+	r.rule = format!("every input runs in a child process of the harness under ulimit (address space {} MiB, stack {} MiB, CPU {} s per batch, {} s CPU per input) with a counting allocator; outcome ok/err is fine, panic / signal / timeout / heap above 32 MiB + 512 x input size is a violation, and so is an accepted class in which one ldc / invokedynamic instruction carries more (nested) bootstrap arguments than the limit the reader documents (MAX_BOOTSTRAP_ARGUMENTS_EXPANDED as read from the source under test, 65536) (each re-run alone before it counts). Inputs: {} valid classes (javac 17 output for --release 8/17 incl. records, sealed, module-info, lambdas, switches, annotations, type annotations; /repo fixtures), every structural field found by an independent walker set to boundary values, truncation at every byte, random byte edits, hand-assembled hostile shapes (truncated instructions, switch ranges, stack-map offset sums, local-variable ranges, exception ranges, code_length, attribute_length up to 4 GiB, self-referential / deep / shared bootstrap arguments, one instruction with 1..255 top-level bootstrap arguments over shared DAGs of exact sizes (each far below or just under the budget, sums 65535 / 65536 / 65537 and far above, through invokedynamic and through ldc), self-referential pool entries, deeply nested element values (arrays, annotations, alternating), huge counts, duplicates, 65535-byte code, invokeinterface descriptors around the writer's u8 argument size, every count of the format at 255 / 256 / 257 / 65535 with all counted items present, element values of the integer kinds at the boundaries of the narrower types, every byte string of length <= 2 (and the 3-byte ones behind E0..EF) over 19 bytes where modified UTF-8 changes its mind as a class name), HOSTILE STRINGS: {} variants of compact valid classes in which every Utf8 that is not an attribute name carries an unpaired high / low surrogate, an embedded NUL, a leading 2- / 3- / 6-byte character, 700 extra bytes, 300 `[` or a run of 300 of one structural character, and whose class name / member names / member descriptors are filled up to 65535 bytes, are BASES too (every field mutation, truncation and byte edit is crossed with them), one Utf8 at a time replaced by / extended to twelve 65535-byte strings (runs of `[` `(` `;` `<` `a/`, surrogates, NUL ...) and made invalid for its role next to a surrogate; every accepted or refused class additionally goes through read_class_multi with the () visitor, a visitor without interests, one that declines the class, one without interest in fields and methods that declines record components, one that declines the code of every method, and twice into Vec<ClassFile>; text inputs for tiny v2 / tiny diff / Enigma / nests (fixtures mutated, random lines, invalid UTF-8, huge indentation, very long lines, deep CLASS nesting; every cell of the valid fixtures replaced one at a time by 37 hostile cells (names that start with multi-byte characters, empty, <init>, array names, separators, Unicode digits and line separators, 3000 letters); 100000-character runs of each of 17 structural characters as class name, member name and descriptor; a backslash directly before 2-, 3-, 4-byte characters and combining marks, at the end of the line, doubled, before TAB, multi-byte characters next to every structural character, in every comment position / field; every string of length <= 3 over (backslash, n, e-acute, euro, U+10400, TAB, c) as comment cell) and descriptor strings (random, runs of each structural character of length 255..300000 inside the frames of field / method / object / array descriptors, 34 short valid and invalid descriptors with a surrogate / NUL / 6-byte character at every position); accepted classes go through write_class and the written bytes are read again. Whole-class correspondence: class files of at most 4096 bytes (all the javac corpus classes of that size, every class of the case-* streams, even samples of the field-mutation / truncation / random-edit / hostile-string / mutf8 / targeted / exact-count streams under a byte budget of 2.6 MB per quick run, 12 MB per thorough run) are cases CClassV for the model of the WHOLE class reader (coq/C16/ModelCls*.v): exact outcome class ok / err / panic of duke::read_class, and whether read_class_multi accepted the same bytes with the () visitor, a visitor without interests that declines every member, one that declines the code of every method, one with interest in Record only and none in fields / methods, and one that declines the class (the model runs under the corresponding visitor description). Whole-file correspondence: every text input of at most 4096 bytes (all targeted shapes and fixtures, the other streams sampled down to 5000 per quick run) is also a case CText for the model of the WHOLE parser (tiny v2 with 1 / 2 / 3 namespaces, tiny diff, Enigma, nests; coq/C16/ModelText.v, UTF-8 bytes), compared by exact outcome class ok / err / panic; element-value nesting is compared at 18 depths x 8 patterns against the three-function model whose increments are read from the source. Non-trivial: the parser accepted the input, or the input is a structured mutation of a valid file (reaches past the header). Distinct by input bytes.", LIMITS.as_kib / 1024, LIMITS.stack_kib / 1024, LIMITS.cpu_s, INPUT_CPU_LIMIT_MS / 1000, first_hostile, bases.len() - first_hostile);
 
 	// group failures so that the report shows each distinct failure once, smallest input first
 	struct Fail { what: String, replay: String, len: usize, count: u64, known: Option<&'static str> }
@@ -507,7 +562,7 @@ pub fn run(ctx: &Ctx) -> anyhow::Result<Report> {
 	let mut heavy_cases: Vec<(&'static str, String)> = vec![];
 	let mut text_cases: Vec<(&'static str, String)> = vec![];
 	// whole class files for the model of the WHOLE reader: (stream, index of the input, observed outcome class)
-	let mut class_cases: BTreeMap<&'static str, Vec<(usize, &'static str)>> = BTreeMap::new();
+	let mut class_cases: BTreeMap<&'static str, Vec<(usize, &'static str, u64)>> = BTreeMap::new();
 	for (k_inp, (inp, o)) in inputs.iter().zip(outs.iter()).enumerate() {
 		let bytes = inp.bytes(&bases);
 		let kname = match inp.kind { K_MDESC | K_RDESC => "descriptor", k => KIND_NAMES[k as usize] };
@@ -552,14 +607,14 @@ pub fn run(ctx: &Ctx) -> anyhow::Result<Report> {
 		// the streams that are about the open known finding F17 (heap) and the 65536-step budget cases stay out
 		if inp.kind == K_CLASS && bytes.len() <= CLASS_CASE_MAX_BYTES && !bytes.is_empty() && !matches!(inp.stream, "case-shared-arguments" | "case-bootstrap-multi" | "regression") {
 			let tok = if (o.res.bad() && o.confirmed) || mem_bad { "RPanic" } else if o.res == Res::Ok { "ROk" } else { "RErr" };
-			class_cases.entry(inp.stream).or_default().push((k_inp, tok));
+			class_cases.entry(inp.stream).or_default().push((k_inp, tok, o.aux));
 		}
 		// correspondence case
 		if let Some(prefix) = &inp.case {
 			let tok = if failure.is_some() && (o.confirmed || mem_bad) { "RPanic" } else if o.res == Res::Ok { "ROk" } else { "RErr" };
 			if prefix.starts_with("CBootN ") {
 				// the observed number of expanded arguments accompanies an accepted class
-				heavy_cases.push((inp.stream, format!("{prefix} {tok} {}", if tok == "ROk" { format!("(Some {})", o.aux) } else { "None".to_string() })));
+				heavy_cases.push((inp.stream, format!("{prefix} {tok} {}", if tok == "ROk" { format!("(Some {})", o.aux & AUX_COUNT_MASK) } else { "None".to_string() })));
 			} else if prefix.starts_with("CArgSize ") {
 				// what the WRITER did with the class the reader accepted
 				match (&o.res, &o.write) {
@@ -610,12 +665,18 @@ pub fn run(ctx: &Ctx) -> anyhow::Result<Report> {
 		for (stream, list) in &class_cases {
 			let take = quota(stream).min(list.len());
 			let step = (list.len() / take.max(1)).max(1);
-			for (j, &(k, tok)) in list.iter().enumerate() {
+			for (j, &(k, tok, aux)) in list.iter().enumerate() {
 				if j % step != 0 { continue; }
 				let bytes = inputs[k].bytes(&bases);
 				if bytes.len() > byte_budget { continue; }
 				byte_budget -= bytes.len();
-				light_cases.push((stream, format!("CClass {} {tok}", gnums(bytes.iter().map(|&x| x as u64)))));
+				let gb = gnums(bytes.iter().map(|&x| x as u64));
+				if tok == "RPanic" { light_cases.push((stream, format!("CClass {gb} {tok}"))); }
+				else {
+					// what the five other visitors answered (order of `others` in run_one_)
+					let v = |k: u32| gbool(aux >> (VISITOR_BIT0 + k) & 1 == 1);
+					light_cases.push((stream, format!("CClassV {gb} {tok} {} {} {} {} {}", v(0), v(1), v(2), v(3), v(4))));
+				}
 				r.count(&format!("class-case:{tok}"));
 				r.count_n("class-case-bytes", bytes.len() as u64);
 			}
